@@ -124,6 +124,14 @@ def gen_field(rnd, k):
                 feats.add("url")
     if not validators:
         return name, ty, [], [], {"no-validator"}
+    # validators of the validator crate that the statement does not translate, mixed in before / between / after the translated ones:
+    # they add nothing themselves and must not cost a declared constraint
+    if rnd.random() < 0.35:
+        other = rnd.choice(['custom(function = "check_it")', 'custom(function = "check_it", message = "custom says no, (really)")', "regex(path = *NAME_RE)",
+                            'must_match(other = "confirm")', 'contains(pattern = "@")', 'does_not_contain(pattern = "admin")', "required", "nested", "credit_card",
+                            "non_control_character", 'custom(function = "a::b::check", use_context)', "ip", 'regex(path = *RE, message = "bad, \\"format\\"")'])
+        validators.insert(rnd.randint(0, len(validators)), other)
+        feats.add("untranslated-validator-" + ("first" if validators[0] == other else "last" if validators[-1] == other else "between"))
     if len(validators) > 1 and rnd.random() < 0.5:
         attrs = ["#[validate(%s)]" % v for v in validators]
         feats.add("separate-attributes")
